@@ -10,6 +10,7 @@ import (
 	sdkmath "cosmossdk.io/math"
 
 	"github.com/EscanBE/evermint/v12/utils"
+	authtypes "github.com/cosmos/cosmos-sdk/x/auth/types"
 	govtypes "github.com/cosmos/cosmos-sdk/x/gov/types"
 	"github.com/ethereum/go-ethereum/common"
 	ethtypes "github.com/ethereum/go-ethereum/core/types"
@@ -67,9 +68,18 @@ func (k *Keeper) EthereumTx(goCtx context.Context, msg *evmtypes.MsgEthereumTx) 
 		labels = append(labels, telemetry.NewLabel("execution", "call"))
 	}
 
+	// must be read before execution
+	senderPaidTxFee := k.IsSenderPaidTxFeeInAnteHandle(ctx)
+
 	response, err := k.ApplyTransaction(ctx, ethTx)
 	if err != nil {
 		return nil, errorsmod.Wrap(err, "failed to apply transaction")
+	}
+
+	if senderPaidTxFee {
+		if err := k.burnRefundedGasFeeFromFeeCollector(ctx, ethTx, response.GasUsed); err != nil {
+			return nil, errorsmod.Wrap(err, "failed to settle refunded gas fee")
+		}
 	}
 
 	defer func() {
@@ -146,6 +156,29 @@ func (k *Keeper) EthereumTx(goCtx context.Context, msg *evmtypes.MsgEthereumTx) 
 	})
 
 	return response, nil
+}
+
+// burnRefundedGasFeeFromFeeCollector settles the refund of unused gas.
+// The ante handler moved `gas limit * effective gas price` from the sender to the fee collector,
+// and the state transition credited `unused gas * effective gas price` back to the sender through the StateDB,
+// which mints. The same amount is taken out of the fee collector and burnt here,
+// so the fee collector keeps exactly what the sender paid and the refund does not inflate the supply.
+func (k *Keeper) burnRefundedGasFeeFromFeeCollector(ctx sdk.Context, ethTx *ethtypes.Transaction, gasUsed uint64) error {
+	if gasUsed >= ethTx.Gas() {
+		return nil
+	}
+
+	effectiveGasPrice := evmutils.EthTxEffectiveGasPrice(ethTx, k.feeMarketKeeper.GetBaseFee(ctx))
+	refunded := new(big.Int).Mul(new(big.Int).SetUint64(ethTx.Gas()-gasUsed), effectiveGasPrice)
+	if refunded.Sign() < 1 {
+		return nil
+	}
+
+	coins := sdk.NewCoins(sdk.NewCoin(k.GetParams(ctx).EvmDenom, sdkmath.NewIntFromBigInt(refunded)))
+	if err := k.bankKeeper.SendCoinsFromModuleToModule(ctx, authtypes.FeeCollectorName, evmtypes.ModuleName, coins); err != nil {
+		return err
+	}
+	return k.bankKeeper.BurnCoins(ctx, evmtypes.ModuleName, coins)
 }
 
 // UpdateParams implements the gRPC MsgServer interface. When an UpdateParams
